@@ -177,7 +177,10 @@ def operand(o, P, Q, variant):
     if k == "none":
         return None, None
     n, d = o["v"]
+    # the number type is not part of the number: python int / float and NumPy scalars in turn
     val = n / d if d != 1 else (int(n) if variant % 2 == 0 else float(n))
+    if variant % 3 == 2:
+        val = np.float64(val) if isinstance(val, float) else np.int64(val)
     return val, ("num", val)
 
 
